@@ -13,7 +13,8 @@ OUTS = ['ok', 'ok', 'ok', 'err:7', 'err:-32602', 'err:plain']
 def convert(beh, rng, name, bodies):
     steps, cid, nxt = [], {}, 1
     nalloc = {h: 0 for h in bodies}
-    for act, a in beh:
+    for item in beh:
+        act, a = item[0], item[1]
         if act == 'Init': continue
         if act == 'Start':
             h = a[0]
@@ -78,6 +79,13 @@ def run_check(prop, tier, seed, replay=None):
             for ci, cfg in enumerate(('bridge', 'bridge2')):
                 for bi, beh in enumerate(C.simulate(cfg, 'MCBridge', n, 40, seed * 31 + ci)):
                     scs.append(convert(beh, rng, 'C18-%s-%d' % (cfg, bi), BODIES[cfg]))
+            cov_info = {}
+            if tier == 'thorough':
+                from . import cover
+                for cfg in ('bridge', 'bridge2'):
+                    behs, ne, ns = cover.behaviours(cfg, 'MCBridge', rng=rng)
+                    scs += [convert(b, rng, 'C18-cover-%s-%d' % (cfg, i), BODIES[cfg]) for i, b in enumerate(behs)]
+                    cov_info['cover_' + cfg] = dict(edges=ne, states=ns, paths=len(behs))
             for k in range(2 if tier == 'quick' else 6):
                 for d in directed(rng):
                     d = dict(d); d['name'] += '-s%d' % k; d['seed'] = rng.randrange(1 << 30); scs.append(d)
@@ -86,17 +94,7 @@ def run_check(prop, tier, seed, replay=None):
             raise C.ToolError('; '.join(info['tool_trouble']))
         accepted, rej = C.validate_traces(traces, 'BridgeContract', {prop}, TMPL, work)
         byname = {s['name']: s for s in scs}
-        violations = []
-        for r in rej[:4]:
-            name = r['trace'][0]['scn']; sc = byname[name]
-            w2 = os.path.join(work, 're_' + re.sub(r'\W', '_', name)); os.makedirs(w2, exist_ok=True)
-            tr2, _ = C.run_scenarios(binp, [sc], w2, nworkers=1)
-            _, rej2 = C.validate_traces(tr2, 'BridgeContract', {prop}, TMPL, w2)
-            if rej2:
-                path = C.save_replay(prop, name, dict(property=prop, scenario=sc, rejected_at=rej2[0]['at'], event=rej2[0]['event'], trace=rej2[0]['trace']))
-                violations.append((name, path, rej2[0]))
-            else:
-                raise C.ToolError('rejection of %s did not reproduce' % name)
+        violations, anomalies = C.confirm_rejections(prop, rej, lambda n: byname[n], lambda sc, w: C.run_scenarios(binp, [sc], w, nworkers=1)[0], 'BridgeContract', TMPL, work)
         sig = lambda t: ' '.join(e['ev'] + str(e.get('status', '')) for e in t if e['ev'] in ('HTTPReqB', 'HTTPReqE', 'HStart', 'HExit'))
         cov = dict(states=sum(d['states'] for d in design) or 1, transitions=sum(d['transitions'] for d in design) or 1, design_runs=design,
                    traces_validated_against_impl=accepted + len(rej), scenarios=len(scs), evaluations=len(traces), distinct_nontrivial=len({sig(t) for t in traces}),
@@ -104,6 +102,7 @@ def run_check(prop, tier, seed, replay=None):
                         'replayed into a real jhttp.Bridge via httptest inside a synctest bubble + directed histories (refused requests, mixed bodies, 5 callers); distinct = distinct request/handler event sequences',
                    racy_schedules=sum(t[0].get('st_racy', 0) > 0 for t in traces), crashes=len(info['crashes']),
                    samples=[dict(scenario=scs[0]['name'], steps=scs[0]['steps'][:10], events=[e['ev'] for e in traces[0] if e['ev'] in ('HTTPReqB', 'HTTPReqE', 'HStart', 'HExit')][:30])], exhaustive=False)
+        if replay is None: cov.update(cov_info)
         C.write_evidence(prop, tier, seed, 'model_checking', cov, time.time() - t0, len(violations),
                          assumptions=['handlers return when released', 'trusted: harness recorder, generic-JSON classifier of HTTP bodies, TLC'])
         for name, path, r in violations:
